@@ -372,7 +372,7 @@ func (w *World) rootResetDominates(fn *ssa.Function, r *Roles) (bool, string) {
 			return
 		}
 		fa, ok := s.Addr.(*ssa.FieldAddr)
-		if !ok || fa.Field != r.CtxResultField || len(fn.Params) == 0 || fa.X != ssa.Value(fn.Params[0]) {
+		if !ok || fa.Field != r.CtxResultField || len(fn.Params) == 0 || fa.X != ssa.Value(ctxParam(fn)) {
 			return
 		}
 		fromRoot := sliceContains(s.Val, func(v ssa.Value) bool { return isFieldLoad(v, r.CtxType, r.CtxRootField) })
